@@ -2,6 +2,7 @@
 Proved for the rules whose decision cores are modelled (theorems of C15/C16/C17 listed in Props/C02.lean); every rule the
 pipeline invokes is applied in isolation to the fixed corpus by the rule sweep (support, reported separately)."""
 import common
+from common import Suite
 import flowrules
 import oracles
 import sweep
@@ -92,9 +93,52 @@ def flow_suite(ctx):
     return s
 
 
+def dupkeys_suite(ctx):
+    """remove_duplicate_dict_keys / remove_duplicate_set_elts on every key sequence over 3 constants up to length 5 (6 thorough): which pairs /
+    elements are kept, and the order in which Python and the rule's output iterate"""
+    import ast
+    import itertools
+
+    from pyrefact import fixes
+
+    s = Suite("dupkeys")
+    consts = ["'k'", "'j'", "7"]
+    reqs, metas = [], []
+    for n in range(1, ctx.n(5, 6) + 1):
+        for keys in itertools.product(range(3), repeat=n):
+            reqs.append({"suite": "dupkeys", "keys": list(keys)})
+            metas.append(keys)
+    for keys, ans in zip(metas, ctx.driver.ask(reqs)):
+        s.cases += 1
+        dsrc = "d = {" + ", ".join(f"{consts[k]}: {100 + i}" for i, k in enumerate(keys)) + "}\n"
+        ssrc = "s = {" + ", ".join(f"{consts[k]}" for k in keys) + "}\n"
+        try:
+            dout = ast.parse(fixes.remove_duplicate_dict_keys(dsrc)).body[0].value
+            sout = ast.parse(fixes.remove_duplicate_set_elts(ssrc)).body[0].value
+        except Exception as ex:  # noqa: BLE001
+            s.disagreements.append({"src": dsrc, "what": f"the duplicate rules raised {ex!r}"})
+            continue
+        real_d = [v.value - 100 for v in dout.values]
+        real_s = [ast.unparse(e) for e in sout.elts]
+        want_s = [ast.unparse(ast.parse(consts[keys[i]], mode="eval").body) for i in ans["set_first_index"]]
+        if len(set(keys)) < len(keys):
+            s.nt(list(keys))
+        if real_d != ans["dict_keeps"]:
+            s.disagreements.append({"src": dsrc, "model_keeps": ans["dict_keeps"], "real_keeps": real_d, "what": "remove_duplicate_dict_keys keeps other pairs than the model"})
+        if real_s != want_s:
+            s.disagreements.append({"src": ssrc, "model_keeps": want_s, "real_keeps": real_s, "what": "remove_duplicate_set_elts keeps other elements than the model"})
+        # the semantics of the model against CPython: iteration order of the display
+        py_order = [consts.index(repr(k)) if repr(k) in consts else consts.index(str(k)) for k in eval(dsrc[4:])]
+        if py_order != ans["dict_order_python"]:
+            s.disagreements.append({"src": dsrc, "model": ans["dict_order_python"], "python": py_order, "what": "the dict-display semantics of the model differs from CPython"})
+    s.samples.append({"suite": "dupkeys", "src": "d = {'k': 100, 'j': 101, 'k': 102}", "rule_keeps": [1, 2], "python_order": ["k", "j"], "rule_order": ["j", "k"]})
+    s.note = "every key sequence over 3 constants of length 1..5 (363; 1092 thorough): pairs kept by remove_duplicate_dict_keys, elements kept by remove_duplicate_set_elts, and the iteration order CPython gives the display, vs the model; non-trivial = a duplicate occurs"
+    return s
+
+
 def suites(ctx):
     common.import_pyrefact()
-    return [flow_suite(ctx), sweep.rules_suite(ctx, quick_n=70)]
+    return [flow_suite(ctx), dupkeys_suite(ctx), sweep.rules_suite(ctx, quick_n=70)]
 
 
 def match_known(d, known):
